@@ -918,7 +918,11 @@ def adapt_typehints(
                 val = list_path.get_content().splitlines()
         if isinstance(val, NestedArg) and subtypehints is not None:
             val = (prev_val[:-1] if isinstance(prev_val, list) else []) + [val]
-        elif isinstance(val, Iterable) and not isinstance(val, (list, str)) and type(val) not in mapping_origin_types:
+        elif (
+            isinstance(val, Iterable)
+            and not isinstance(val, (list, str, bytes, bytearray, abc.Mapping))  # not a sequence of items
+            and type(val) not in mapping_origin_types
+        ):
             val = list(val)
         elif not isinstance(val, list):
             raise_unexpected_value(f"Expected a {typehint_origin}", val)
